@@ -356,17 +356,18 @@ class Block(Entity):
             dt_arr = list(col_dict.items())
             col_dtype = np.dtype(dt_arr)
 
+        # convert the data before anything is created, so that data which
+        # do not fit the columns leave no half-built frame behind
+        if data is not None and shape > 0:
+            if type(data[0]) != np.void:
+                data = list(map(tuple, data))
+            data = np.ascontiguousarray(data, dtype=col_dtype)
+
         df = DataFrame.create_new(self.file, self, data_frames, name,
                                   type_, shape, col_dtype, compression)
 
-        if data is not None:
-            if type(data[0]) == np.void:
-                data = np.ascontiguousarray(data, dtype=col_dtype)
-                df.write_direct(data)
-            else:
-                data = list(map(tuple, data))
-                arr = np.ascontiguousarray(data, dtype=col_dtype)
-                df.write_direct(arr)
+        if data is not None and shape > 0:
+            df.write_direct(data)
         return df
 
     def find_sources(self, filtr=lambda _: True, limit=None):
